@@ -557,8 +557,71 @@ def run_case(stratum, rng, ctx):
         ctx._nontrivial_flag = False
 
 
+def case_many_atoms(rng, ctx):
+    """Atom counts beyond 65536 (where i * n + j no longer fits 32 bits): the constructor and merge() keep exactly the
+    distinct pairs (first type wins), compared with a NumPy set computation instead of the Python model."""
+    n = int(rng.choice([65537, 70000, 131071, 200003]))
+    kind = str(rng.choice(["chain", "chain", "random", "colliding"]))
+    if kind == "chain":
+        a = np.stack([np.arange(n - 1), np.arange(1, n)], axis=1)
+    elif kind == "random":
+        a = rng.integers(0, n, size=(20000, 2))
+        a = a[a[:, 0] != a[:, 1]]
+    else:
+        # pairs whose i * n + j coincide modulo 2**32 with another pair of the list
+        i1 = rng.integers(0, n - 2, size=3000)
+        j1 = rng.integers(0, n, size=3000)
+        k = (i1.astype(np.int64) * n + j1 + 2**32)
+        i2, j2 = k // n, k % n
+        ok = (i2 < n) & (i2 != j2) & (i1 != j1)
+        a = np.concatenate([np.stack([i1[ok], j1[ok]], axis=1), np.stack([i2[ok], j2[ok]], axis=1)])
+        if len(a) == 0:
+            a = np.array([[0, 1]])
+    types = rng.integers(0, 7, size=len(a))
+    arr = np.concatenate([a, types[:, None]], axis=1).astype(np.int64)
+    if rng.random() < 0.3:
+        arr = arr[rng.permutation(len(arr))]
+    ctx.log("BondList(many atoms)", n, kind, int(len(arr)))
+    ctx.op("construct_many_atoms_" + kind)
+    ctx.mark_nontrivial()
+    lo, hi = np.minimum(arr[:, 0], arr[:, 1]), np.maximum(arr[:, 0], arr[:, 1])
+    key = lo.astype(np.int64) * n + hi
+    _, first = np.unique(key, return_index=True)
+    exp = {(int(lo[f]), int(hi[f])): int(arr[f, 2]) for f in first}
+    half = len(arr) // 2
+    for how in ("construct", "merge"):
+        if how == "construct":
+            bl = BondList(n, arr)
+        else:
+            bl = BondList(n, arr[:half]).merge(BondList(n, arr[half:]))
+            # merge(): the type of the argument wins for a pair present in both
+            first_half = {}
+            for r_ in arr[:half]:
+                first_half.setdefault((int(min(r_[0], r_[1])), int(max(r_[0], r_[1]))), int(r_[2]))
+            second_half = {}
+            for r_ in arr[half:]:
+                second_half.setdefault((int(min(r_[0], r_[1])), int(max(r_[0], r_[1]))), int(r_[2]))
+            exp_m = dict(first_half)
+            exp_m.update(second_half)
+        want = exp if how == "construct" else exp_m
+        got = bl.as_array()
+        ctx.oracle("views_vs_model")
+        gd = {(int(r_[0]), int(r_[1])): int(r_[2]) for r_ in got}
+        if bl.get_atom_count() != n or len(got) != len(gd) or gd != want:
+            missing = [k_ for k_ in want if k_ not in gd][:5]
+            ctx.fail("views_vs_model", "%s of %d bonds over %d atoms (%s): %d bonds kept, %d distinct pairs expected (missing e.g. %s)"
+                     % (how, len(arr), n, kind, len(got), len(want), missing))
+        nb, _ = bl.get_bonds(int(arr[0, 0]))
+        want_nb = sorted({b_ if a_ == int(arr[0, 0]) else a_ for (a_, b_) in want if int(arr[0, 0]) in (a_, b_)})
+        if sorted(int(v) for v in nb) != want_nb:
+            ctx.fail("views_vs_model", "get_bonds(%d) on %d atoms: %s, expected %s" % (int(arr[0, 0]), n, sorted(int(v) for v in nb)[:10], want_nb[:10]))
+    ctx.state(("many_atoms", kind, n))
+
+
 def case_construct(rng, ctx):
     """Constructor inputs incl. invalid ones."""
+    if ctx.index % 100 == 7:
+        return case_many_atoms(rng, ctx)
     n = int(rng.integers(0, 12))
     kind = str(rng.choice(["valid", "oob_high", "oob_low", "bad_shape", "bad_type", "valid"]))
     ctx.op("construct_" + kind)
